@@ -8,7 +8,27 @@ use crate::{Args, RunStats};
 use serde_json::Value;
 use std::panic::{catch_unwind, AssertUnwindSafe};
 
+/// the property's own monitor(s) plus, for every property whose monitor computes expectations from configuration values,
+/// the configuration shadow (reported configuration == configuration as given; see mon/cfgshadow.rs)
 pub fn monitors_for(prop: &str) -> Vec<Box<dyn Monitor>> {
+    let mut v = own_monitors_for(prop);
+    let to: Option<&'static str> = match prop {
+        "C05" => Some("C05"),
+        "C06" => Some("C06"),
+        "C07" => Some("C07"),
+        "C11" => Some("C11"),
+        "C12" => Some("C12"),
+        "C15" => Some("C15"),
+        "C20" => Some("C20"),
+        _ => None,
+    };
+    if let (Some(to), false) = (to, v.is_empty()) {
+        v.push(Box::new(Relabel { inner: Box::new(mon::cfgshadow::CfgShadow::default()), to, prefix: "" }));
+    }
+    v
+}
+
+fn own_monitors_for(prop: &str) -> Vec<Box<dyn Monitor>> {
     match prop {
         "C01" => vec![Box::new(mon::basic::C01::default())],
         "C02" => vec![Box::new(mon::basic::C02::default())],
